@@ -449,7 +449,7 @@ def c16(ctx):
     return [
         Native("fresh", "c16", args=["--part", "fresh"], note="Part A: random fields of N consecutive operations per kind logged to run/C16/<tier>/c16-events-*.bin"),
         Single("offline-uniqueness-check", "c16check", lambda c: [c.rundir], note="offline checker over the event logs of all shards: sorted merge, no random field may repeat"),
-        WithShim("faults", "c16", args=["--part", "faults"], shards=4, quick_shards=4, note="Part B/C: fail-from-k and short-read-at-k at every OS draw index, fed bytes must reappear (getrandom backends v1-v4)"),
+        WithShim("faults", "c16", args=["--part", "faults"], shards=4, quick_shards=4, env={"PVMON_STALL_SECS": "150"}, note="Part B/C: fail-from-k and short-read-at-k at every OS draw index, fed bytes must reappear (getrandom backends v1-v4)"),
     ]
 
 
